@@ -173,16 +173,20 @@ uint64_t cmb_timeseries_summarize(const struct cmb_timeseries *tsp,
                                   struct cmb_wtdsummary *wsp)
 {
     cmb_assert_release(tsp != NULL);
-    cmb_assert_release(tsp->ta != NULL);
     cmb_assert_release(wsp != NULL);
 
     const struct cmb_dataset *dsp = (struct cmb_dataset *)tsp;
     cmb_assert_release(dsp->cookie == CMI_INITIALIZED);
-    cmb_assert_debug(dsp->xa != NULL);
 
     cmb_wtdsummary_initialize(wsp);
     const uint64_t un = cmb_timeseries_count(tsp);
-    cmb_assert_debug(un > 0u);
+    if (un == 0u) {
+        /* Nothing recorded yet, the summary stays empty */
+        return 0u;
+    }
+
+    cmb_assert_debug(dsp->xa != NULL);
+    cmb_assert_debug(tsp->ta != NULL);
     for (uint64_t ui = 0u; ui < un - 1u; ui++) {
         const double x = dsp->xa[ui];
         const double w = tsp->wa[ui];
@@ -440,7 +444,12 @@ double cmb_timeseries_median(const struct cmb_timeseries *tsp)
 {
     cmb_assert_release(tsp != NULL);
     cmb_assert_release(((struct cmb_dataset *)tsp)->cookie == CMI_INITIALIZED);
-    cmb_assert_release(tsp->wa != NULL);
+
+    if (tsp->wa == NULL) {
+        /* As for an empty dataset */
+        cmb_logger_warning(stderr, "Cannot take median without any data.");
+        return 0.0;
+    }
 
     struct cmb_timeseries tmp_ts = { 0 };
     const uint64_t un = cmb_timeseries_copy(&tmp_ts, tsp);
@@ -482,8 +491,13 @@ void cmb_timeseries_fivenum_print(const struct cmb_timeseries *tsp,
 {
     cmb_assert_release(tsp != NULL);
     cmb_assert_release(((struct cmb_dataset *)tsp)->cookie == CMI_INITIALIZED);
-    cmb_assert_release(tsp->wa != NULL);
     cmb_assert_release(fp != NULL);
+
+    if (tsp->wa == NULL) {
+        /* As for an empty dataset */
+        cmb_logger_warning(fp, "No data to display in five-number summary");
+        return;
+    }
 
     struct cmb_timeseries tmp_ts = { 0 };
     const uint64_t un = cmb_timeseries_copy(&tmp_ts, tsp);
